@@ -124,16 +124,23 @@ func init() {
 	// C01 — RFC 6902 result (v5)
 	registerSeqMulti("C01", func(tier string) []*seqProp {
 		first := &AlphaCfg{InteriorNeg: true}
-		p := &seqProp{ID: "C01", Docs: Dq, Opts: optsNeg(defaultOpt), Depth: 2, Alpha: []*AlphaCfg{first, {}},
+		second := &AlphaCfg{Values: []*rj.Value{patchValues[0], patchValues[2], patchValues[3], patchValues[5], patchValues[6]}, MaxFroms: 8} // 1, null, {}, {"k":null}, [null]; 8 move/copy sources
+		p := &seqProp{ID: "C01", Docs: Dq, Opts: optsNeg(defaultOpt), Depth: 2, Alpha: []*AlphaCfg{first, second},
 			Judge: func(r *seqRun) { judgeResult(r, false) },
 			Rule: "all operation sequences of length <= depth over the alphabet Sigma(D) recomputed from the current reference state " +
-				"(every resolvable pointer + near-misses x 8 patch values x 6 operations), on each curated document, SupportNegativeIndices on/off; " +
+				"(every resolvable pointer + near-misses x 8 patch values (5 for the second operation) x 6 operations), on each curated document, SupportNegativeIndices on/off; " +
 				"a case is one (document, options, sequence); states = distinct (options, reference document) reached"}
 		if tier == "thorough" {
 			p.Alpha = []*AlphaCfg{first, first}
 			return []*seqProp{p, deepPhase(p, first, DqCore)}
 		}
-		return []*seqProp{p}
+		// a small depth-3 phase on every change: one tiny document, reduced alphabets at all three levels
+		mini := deepPhase(p, &AlphaCfg{Values: v2, ReplValues: []*rj.Value{patchValues[2], patchValues[5]}, Kinds: kinds("add", "replace", "remove", "move")},
+			[]string{`{"a":{"x":1},"k":[0]}`})
+		mini.Opts = []r69.Options{defaultOpt}
+		mini.Alpha[1] = &AlphaCfg{Values: v2, ReplValues: []*rj.Value{patchValues[2], patchValues[5]}, Kinds: kinds("add", "replace", "remove")}
+		mini.Rule = "DEPTH 3 on one tiny document: {add, replace, remove, move} first, {add, replace, remove} second (values {1,null}; replace by null / {k:null}), {test, remove, copy, move} third - incl. the locations that existed at the start and no longer do"
+		return []*seqProp{p, mini}
 	}, 150*time.Second, 25*time.Minute)
 }
 
@@ -265,7 +272,7 @@ func init() {
 			`{"h":"<>&","<k>":{"x":"a<b"},"a":[1,"&"]}`,
 			"{\"u\":\"\u2028x\u2029\",\"q\":\"\\\"\\\\\\n\",\"s\":{\"\U0001F600\":\"\\ud83d\\ude00\",\"l\":\"\\ud800\"}}",
 			`{"a":{"b":"<"},"c":["<",{"d":"&"}]}`,
-			`{}`, `[]`, `[{"<":1},"\u001f>"]`,
+			`{}`, `[]`, `[{"<":1},"\u001f>"]`, " [ ] ", "{\"e\":[ ],\"f\":[\n],\"g\":{ }}",
 			// neighbours (one bit away in some UTF-8 byte) of the characters the escaper special-cases
 			"{\"n\":\"\u2068x\u2069 \u2027\u202a\u2038\u20a8\u2128 \u00a8\",\"\u2069k\":[\"\u2068\"]}",
 			// duplicate member names: no value oracle applies, the output must still be JSON
@@ -279,7 +286,7 @@ func init() {
 				"and be byte-identical to the output of the same patch with its (passing) test operations deleted"}
 		if tier == "thorough" {
 			d := *p
-			d.Docs = docs[:7]
+			d.Docs = docs[:9]
 			d.Depth = 3
 			d.Alpha = []*AlphaCfg{a, {Values: vals[:2], ReplValues: vals[:1]}, {Values: vals[:1], ReplValues: vals[:1], Kinds: kinds("test", "add", "move", "copy")}}
 			d.Rule = "DEPTH 3 on the first 7 documents with reduced second/third alphabets; same oracle"
@@ -301,7 +308,13 @@ func init() {
 			p.Docs = append(p.Docs, Dq[12], Dq[13])
 			return []*seqProp{p, deepPhase(p, a, []string{Dq[0], Dq[1], Dq[2], Dq[3], Dq[6], Dq[7], Dq[10]})}
 		}
-		return []*seqProp{p}
+		// a small depth-3 phase on every change (it found the copied-null defect of the legacy package)
+		mini := deepPhase(p, &AlphaCfg{NoRootAdd: true, Values: v2, ReplValues: []*rj.Value{patchValues[2], patchValues[5]}, Kinds: kinds("add", "replace", "remove", "move")},
+			[]string{`{"a":{"x":1},"k":[0]}`})
+		mini.Opts = []r69.Options{{Neg: true, EscapeHTML: true}}
+		mini.Alpha[1] = &AlphaCfg{NoRootAdd: true, Values: v2, ReplValues: []*rj.Value{patchValues[2], patchValues[5]}, Kinds: kinds("add", "replace", "remove", "copy")}
+		mini.Rule = "DEPTH 3 on one tiny document: {add, replace, remove, move} first, {add, replace, remove, copy} second, {test, remove, copy, move} third"
+		return []*seqProp{p, mini}
 	}, 150*time.Second, 25*time.Minute)
 }
 
@@ -389,6 +402,8 @@ func init() {
 				rj.NewObj(rj.Member{Name: "b", V: rj.NewObj(rj.Member{Name: "a", V: rj.Clone(inner)})}))
 		}
 		runMergeEdges(ctx, "C02", false, echoDocs, echoDocs, mergeCfg{})
+		look := pointerLookalikeObjects()
+		runMergeEdges(ctx, "C02", false, append(look, rj.MustParse(`{"a":{"a/b":1,"a~1b":2}}`)), look, mergeCfg{})
 		if tier == "quick" {
 			v3 := famV3()
 			runMergeEdges(ctx, "C02", false, v3, v3, mergeCfg{})
@@ -450,6 +465,14 @@ func init() {
 			p2s = append(append([]*rj.Value(nil), onlyObjs(famV4())...), parseAll([]string{`[1]`, `"s"`, `1`, `null`, `[{"a":null}]`, `true`})...)
 		}
 		runCompose(ctx, "C07", false, dedupe(docs), ps, p2s)
+		// names that look like pointer escapes of one another, top level and nested
+		look := pointerLookalikeObjects()
+		var lookN []*rj.Value
+		for _, o := range look {
+			lookN = append(lookN, o, rj.NewObj(rj.Member{Name: "a", V: o}))
+		}
+		lookDocs := parseAll([]string{`{}`, `{"a/b":1,"a~1b":2,"m~n":3,"m~0n":4}`, `{"a":{"a/b":1,"a~1b":2,"m~n":3,"m~0n":4}}`, `{"a~1b":{"x":1}}`})
+		runCompose(ctx, "C07", false, lookDocs, lookN, lookN)
 	}, false)
 }
 
